@@ -1,0 +1,79 @@
+//go:build verif
+
+package gnosis
+
+import (
+	"context"
+
+	"github.com/jackc/pgx/v4/pgxpool"
+
+	obskeyper "github.com/shutter-network/rolling-shutter/rolling-shutter/chainobserver/db/keyper"
+	"github.com/shutter-network/rolling-shutter/rolling-shutter/keyper/epochkghandler"
+	"github.com/shutter-network/rolling-shutter/rolling-shutter/medley/beaconapiclient"
+	"github.com/shutter-network/rolling-shutter/rolling-shutter/medley/broker"
+)
+
+// VerifNewKeyper builds a Keyper that is sufficient for the slot processing paths
+// (processNewSlot / maybeTriggerDecryption / triggerDecryption /
+// getDecryptionIdentityPreimages): the configuration (encrypted gas limit, minimum gas per
+// transaction, maximum tx pointer age, slots per epoch, instance id, node key), the database
+// pool and the decryption trigger channel, which the caller creates (buffered, so that a
+// trigger can be observed without a concurrent receiver). If beaconAPIURL is not empty a
+// beacon API client for that URL is attached (needed by maybeTriggerDecryption only). Like
+// Start, it leaves latestTriggeredSlot unset. Nothing else is initialised.
+func VerifNewKeyper(
+	config *Config,
+	dbpool *pgxpool.Pool,
+	decryptionTriggerChannel chan *broker.Event[*epochkghandler.DecryptionTrigger],
+	beaconAPIURL string,
+) (*Keyper, error) {
+	kpr := New(config)
+	kpr.dbpool = dbpool
+	kpr.decryptionTriggerChannel = decryptionTriggerChannel
+	kpr.latestTriggeredSlot = nil
+	if beaconAPIURL != "" {
+		client, err := beaconapiclient.New(beaconAPIURL)
+		if err != nil {
+			return nil, err
+		}
+		kpr.beaconAPIClient = client
+	}
+	return kpr, nil
+}
+
+// VerifTriggerDecryption calls triggerDecryption directly, i.e. without the checks that
+// maybeTriggerDecryption performs in front of it (latest triggered slot, sync status, keyper
+// set membership, beacon proposer registration) and without the tx pointer age increment.
+func (kpr *Keyper) VerifTriggerDecryption(
+	ctx context.Context,
+	slot uint64,
+	nextBlock int64,
+	keyperSet *obskeyper.KeyperSet,
+) error {
+	return kpr.triggerDecryption(ctx, slot, nextBlock, keyperSet)
+}
+
+// VerifProcessNewSlot calls maybeTriggerDecryption, which is all that processNewSlot does
+// with the slot number.
+func (kpr *Keyper) VerifProcessNewSlot(ctx context.Context, slot uint64) error {
+	return kpr.maybeTriggerDecryption(ctx, slot)
+}
+
+// VerifLatestTriggeredSlot returns a copy of the latest triggered slot (nil if unset).
+func (kpr *Keyper) VerifLatestTriggeredSlot() *uint64 {
+	if kpr.latestTriggeredSlot == nil {
+		return nil
+	}
+	slot := *kpr.latestTriggeredSlot
+	return &slot
+}
+
+// VerifGetTxPointer exposes getTxPointer.
+func VerifGetTxPointer(ctx context.Context, db *pgxpool.Pool, eon int64, maxTxPointerAge int64) (int64, error) {
+	return getTxPointer(ctx, db, eon, maxTxPointerAge)
+}
+
+// VerifNewDecryptionKeysHandler builds the handler the way Start does.
+func VerifNewDecryptionKeysHandler(dbpool *pgxpool.Pool) *DecryptionKeysHandler {
+	return &DecryptionKeysHandler{dbpool}
+}
